@@ -59,7 +59,9 @@ CFG = {
                   "returned artifact / ParameterData slice is retained and read again later (end of window, after "
                   "later updates, by a slow consumer during updates) and must still show the value it showed at "
                   "response time; the harness-defined nodes count clients inside their Process (mutual exclusion "
-                  "observed directly)",
+                  "observed directly); at every quiescent point each producer of the live instance must agree with a "
+                  "fresh instance given the same parameter values (also for producers with failing nodes and for the "
+                  "repository's glTF scene producer)",
     "level_note": "The theorems are about the lock-level model parametrised by the generated lock facts (a syntactic "
                   "discipline: Lock first, defer Unlock next, nothing shared touched before, no goroutines/closures, "
                   "callees do not touch the mutex) - they do not cover the Go memory model. Data races and crashes of the "
@@ -71,18 +73,21 @@ CFG = {
                  "facts (T) + vm_compute judgement of recorded concurrent histories (H) + race detector sampling",
     "design_ref": "DESIGN.md §4 C13",
     "n_quick": 500, "n_thorough": 20000, "search_n": 2400,
-    "rule": "windows of one epoch = one Instance (4 fixed + random graph shapes: 4-6 parameters of types int/float64/"
+    "rule": "windows of one epoch = one Instance (5 fixed + random graph shapes: 4-6 parameters of types int/float64/"
             "string/bool/File/Value[[]int] (slice payloads whose length depends on the value: equal and smaller "
             "re-uploads); 2-5 producers: text producers listing 2-5 parameters through shared and two-level join "
-            "nodes, some parameters listed twice through different paths, basics.Binary on File parameters and a "
-            "slice-keeping artifact on []int parameters) and 1-8 client goroutines; every slice parameter is "
+            "nodes, some parameters listed twice through different paths, loader-like nodes that FAIL (zero value + "
+            "error) for int values divisible by 3 behind a fallback node, basics.Binary on File parameters, a "
+            "slice-keeping artifact on []int parameters, and the repository's gltf.ArtifactNode over 2-3 gltf.ModelNode "
+            "sharing one mesh node and one gltf.MaterialNode that depend on an int and a float parameter) and 1-8 client goroutines; every slice parameter is "
             "re-uploaded once and read at epoch start (retained set); per window <= 12 calls "
             "(<= 5 update-type: 1/8 malformed) drawn from the seed with reader/writer/mixed roles, released together, "
             "stamps from one atomic counter, quiescence + full parameter/version read between windows; jitter "
             "(Gosched + <= 8 us busy wait) between input reads inside the harness-defined nodes; 0-2 unlocked "
             "ModelVersion() reads, 0-1 Schema() call and 0-2 slow re-reads of retained responses per window; all "
             "responses of the window and <= 8 retained slice-backed responses are re-read at the next quiescent "
-            "point; distinct by recorded history; non-trivial = an "
+            "point, where every producer of the live instance is also compared with a FRESH instance built with "
+            "the same parameter values; an epoch ends after a rejected window; distinct by recorded history; non-trivial = an "
             "update overlaps in time with a read/artifact call of another thread",
     "trusted": ["tools/lockfacts (go/parser based, purely syntactic extraction of the lock discipline of every method of "
                 "graph.Instance; receiver fields only - state behind nodes/parameters is reached only through calls made "
